@@ -255,10 +255,18 @@ pub fn run_c17(tier: &str, root: &Path) -> Value {
         let sn = g.source.len();
         let sstride = if tier == "thorough" || sn < 10_000 { 1 } else if sn < 32_768 { 7 } else { 31 };
         let spath = dir.join(&g.source_name);
+        let old_time = std::time::UNIX_EPOCH + std::time::Duration::from_secs(1_000_000_000);
         for off in (0..sn).step_by(sstride) {
-            for e in Edit::ALL {
+            for (ei, e) in Edit::ALL.iter().enumerate() {
                 rep.eval(1);
                 std::fs::write(&spath, e.apply(&g.source, off)).unwrap();
+                // file times must not matter: every other case gives the edited source a
+                // modification time far older than the generated file (mv of an older revision, cp -p)
+                if (off + ei) % 2 == 1 {
+                    if let Ok(f) = std::fs::File::options().write(true).open(&spath) {
+                        let _ = f.set_modified(old_time);
+                    }
+                }
                 match load(&wc, &dir) {
                     Ok(Err(_)) => {}
                     Ok(Ok(_)) => rep.violation("source-tamper-accepted", (sn as u64) * 1_000_000 + off as u64, json!({"size": n, "label": g.label, "file": "source", "edit": format!("{}@{}", e.name(), off)}), "source edited but load+check succeeded".into()),
@@ -301,7 +309,7 @@ pub fn run_c17(tier: &str, root: &Path) -> Value {
     rep.sample(json!({"label": "s150", "file": "generated", "edit": "insert_space@17", "expect": "load+check fails"}));
     rep.sample(json!({"label": "s70k", "file": "generated", "edit": "xor01@69000", "expect": "load+check fails"}));
     rep.finish(
-        "for source configurations whose generated file is ~150 B, ~4 KiB, 8191, 8192, 8193, ~20 KiB and ~70 KiB (generated by the real `config generate`): untouched files must load and pass the integrity check; every offset of the generated file x {xor 0x01, xor 0x20, delete, insert space}, truncation at every multiple of 64 and at end-1, three appends; every offset of the source x the same edits (quick: stride 7 for sources above 10 KB, 31 above 32 KB; generated files above 32 KB at stride 3 plus every offset within 8 bytes of a multiple of 8192 and the last 64 bytes; thorough: every offset everywhere); every hex digit of the lockfile checksum; all must be rejected; non-trivial = edits after which the file still denotes the same JSON value (only the checksum can notice) plus all lockfile/source-append edits",
+        "for source configurations whose generated file is ~150 B, ~4 KiB, 8191, 8192, 8193, ~20 KiB and ~70 KiB (generated by the real `config generate`): untouched files must load and pass the integrity check; every offset of the generated file x {xor 0x01, xor 0x20, delete, insert space}, truncation at every multiple of 64 and at end-1, three appends; every offset of the source x the same edits, every other case with the edited source's modification time set far into the past (quick: stride 7 for sources above 10 KB, 31 above 32 KB; generated files above 32 KB at stride 3 plus every offset within 8 bytes of a multiple of 8192 and the last 64 bytes; thorough: every offset everywhere); every hex digit of the lockfile checksum; all must be rejected; non-trivial = edits after which the file still denotes the same JSON value (only the checksum can notice) plus all lockfile/source-append edits",
         true,
         json!({"sizes": sizes.iter().map(|s| s.0).collect::<Vec<_>>(), "edits": 4}),
     )
